@@ -507,6 +507,23 @@ func C17(tier rt.Tier) int {
 										}
 									}
 								}
+								// 3d. the repair is made by the trie object that BUILT the state (its node cache still holds every node
+								// that has vanished from the store behind it); other tries on the store must see the repair
+								if len(remList) > 0 && tver == origin && order[0] == 0 && sort.IntsAreSorted(order) {
+									if err := t1.MergeDB(donor, root, nil); err != nil {
+										violate("live-repair", desc+": MergeDB on the trie object that built the state returned "+err.Error(), replay)
+										return
+									}
+									fresh := util.NewMerklePatriciaTrie(db, util.Sequence(tver), root, statecache.NewEmpty())
+									if has, err := fresh.HasMissingNodes(context.Background()); err != nil || has {
+										violate("live-repair", fmt.Sprintf("%s: repaired through the trie object that built the state (warm node cache); a fresh trie on the store still reports missing nodes (%v, %v)", desc, has, err), replay)
+										return
+									}
+									// put the store back into its damaged state for the steps below
+									for _, n := range remList {
+										_ = db.DeleteNode(n.Hash())
+									}
+								}
 								// 3c. the donor's nodes arrive over the wire (Encode -> CreateNode) and carry a version mark that
 								// differs from their origin (as nodes visited by a pruning pass do); the hash covers the origin only
 								if len(remList) > 0 && order[0] == 0 && sort.IntsAreSorted(order) {
@@ -585,7 +602,7 @@ func C17(tier rt.Tier) int {
 	rep.Set("distinct_nontrivial", int(cases))
 	rep.Set("lookups_judged", int(lookups))
 	rep.Set("repairs_judged", int(repairs))
-	rep.Set("rule", fmt.Sprintf("every content of <= %d of the paths %q (prefix pairs, interior values, prefix-free 4-char paths) x EVERY subset of its reachable non-root nodes removed from the store (all subsets up to 2^9, else all of size <= 3) x trie version equal to / different from the nodes' origin x every order of the donor store's iteration (all permutations up to %d nodes, rotations+reversals above). Oracle: HasMissingNodes <=> some node absent; GetAllMissingNodes, and the keys a full tolerant Iterate reports to its handler and records in GetMissingNodeKeys, == absent nodes whose ancestors are all present; a lookup that crosses an absent node (per the independent canonical trie) returns an error other than 'value not present', all other lookups answer per model; after MergeDB, and after MergeState into a copy of the damaged store: no missing node, full content, same root, every store key == hash of its node, donor node objects unchanged; a repair from donor nodes that went through Encode/CreateNode with a version mark different from their origin; the same repairs from a layered donor store whose own trie has replaced every value since (its upper level marks the needed nodes deleted, its lower level holds them); a MergeDB interrupted by a store write error (every position) returns the error and the same trie keeps reporting exactly what the store still lacks; a Delete on the damaged trie either fails or yields the canonical root of the remaining content; plus the deepest comb (65 paths of 64 characters, 64 nested branches) with every single node of the deepest path absent in turn; 'states' = contents, 'transitions' = (content, removal subset, version, order) cases", maxKeys, paths, permCap))
+	rep.Set("rule", fmt.Sprintf("every content of <= %d of the paths %q (prefix pairs, interior values, prefix-free 4-char paths) x EVERY subset of its reachable non-root nodes removed from the store (all subsets up to 2^9, else all of size <= 3) x trie version equal to / different from the nodes' origin x every order of the donor store's iteration (all permutations up to %d nodes, rotations+reversals above). Oracle: HasMissingNodes <=> some node absent; GetAllMissingNodes, and the keys a full tolerant Iterate reports to its handler and records in GetMissingNodeKeys, == absent nodes whose ancestors are all present; a lookup that crosses an absent node (per the independent canonical trie) returns an error other than 'value not present', all other lookups answer per model; after MergeDB, and after MergeState into a copy of the damaged store: no missing node, full content, same root, every store key == hash of its node, donor node objects unchanged; a repair made through the trie object that built the state (warm node cache) seen by a fresh trie; a repair from donor nodes that went through Encode/CreateNode with a version mark different from their origin; the same repairs from a layered donor store whose own trie has replaced every value since (its upper level marks the needed nodes deleted, its lower level holds them); a MergeDB interrupted by a store write error (every position) returns the error and the same trie keeps reporting exactly what the store still lacks; a Delete on the damaged trie either fails or yields the canonical root of the remaining content; plus the deepest comb (65 paths of 64 characters, 64 nested branches) with every single node of the deepest path absent in turn; 'states' = contents, 'transitions' = (content, removal subset, version, order) cases", maxKeys, paths, permCap))
 	rep.Sample(map[string]any{"content": []string{"aa", "ab", "0a1b"}, "removed": "second-level branch", "trie_version": 5, "order": []int{0}})
 	if !rt.SubRun && (rt.Replay == nil || rt.Replay.Raw["run"] == "deep-comb") {
 		deepComb(rep)
